@@ -11,7 +11,7 @@ from harness import common, trees, treeimpl, updimpl
 from harness.common import cps, uncps
 from harness.props import c03
 
-BRIDGE = ('Gemato.Bridge.Cli',)
+BRIDGE = ('Gemato.Bridge.Cli', 'Gemato.Bridge.SrcCli', 'Gemato.Bridge.SrcUpdate', 'Gemato.Bridge.SrcVerify')
 PROPS = ['Gemato.Props.C11']
 ZONES = ['UTC0', 'JST-9', 'EST5', '<+14>-14', '<-11>11']
 T0 = 1600000000          # 2020-09-13T12:26:40Z
